@@ -174,7 +174,8 @@ def run(ctx):
     ctx.suite("engine.late_consumer", runs=nl, bursts_over_2048=big)
     ctx.require_coverage("engine.late_consumer", "bursts_over_2048", big, 2)
     from props._engine_common import run_runnerdiff
-    run_runnerdiff(ctx, ctx.n(60, 1500), 'C04_exit_freezes_the_run / C04_nothing_published_after_exit')
+    run_runnerdiff(ctx, ctx.n(60, 1500), 'C04_run_loop_stream_ends_with_the_matching_terminal_event / C04_exit_freezes_the_run / C04_nothing_published_after_exit',
+                   need_outcomes=(1, 2, 3, 4))
 
 
 def replay(ctx, path):
